@@ -468,7 +468,9 @@ var e2eProbes = []string{
 	// literal alternations large enough for the Aho-Corasick strategy (> 64) and for Fat Teddy (33..64), with a literal that occurs
 	// INSIDE another one, listed before or after it: the automaton behind both reports the occurrence that ends first
 	"rdqs1b|dqs|" + manyLiterals(70), "dqs|rdqs1b|" + manyLiterals(70), manyLiterals(70) + "|xbcd|xbc", "xbcd|" + manyLiterals(20) + "|xbc|" + manyLiterals(40)[80:],
-	manyLiterals(40) + "|abcab|bca", `25[0-5]|2[0-4][0-9]`, manyLiterals(70), `[0-9][0-9a-f]*h|[0-9]+px`, `[0-9][a-z0-9]*X|7Y`, `(\d[\da-z]*_id|\d{4}-\d{2})`, `[0-9]+[a-z]*\.com`, `\d+\.\d+\.\d+`,
+	manyLiterals(40) + "|abcab|bca", `25[0-5]|2[0-4][0-9]`, manyLiterals(70),
+	// class products large enough for the literal engines, WITH position assertions (the literal engines match wherever the literal occurs)
+	`\d\d\b`, `[a-j][a-j]\b`, `\b(\d)(\d)`, `(?m)^(?:` + manyLiterals(70) + `)`, `(?:` + manyLiterals(70) + `)\b`, `[a-h][a-h]\B`, `\b[0-9][a-f]`, `[0-9][0-9a-f]*h|[0-9]+px`, `[0-9][a-z0-9]*X|7Y`, `(\d[\da-z]*_id|\d{4}-\d{2})`, `[0-9]+[a-z]*\.com`, `\d+\.\d+\.\d+`,
 	`[a-z]+\.txt`, `\w+@\w+\.com`, `.*error.*`, `[a-z ]+connection[a-z ]+[0-9]`, `(?m)^/.*[0-9]\.php`, `^a.*b`, `^.+b`, `\bport.\d+`, `\Bion.\w`,
 	`[a-z]+[a-z]+[0-9]`, `(foo|bar)+x`, `"[^"]*"`}
 
